@@ -8,6 +8,8 @@ import (
 	"strings"
 	"time"
 
+	altsim "digsim/altsim"
+
 	"go.uber.org/dig"
 )
 
@@ -55,6 +57,7 @@ type Event struct {
 	Minted [][]int64 // EvExit: serials per leaf result
 	CB     *CBObs    // EvCallback
 	Depth  int       // number of stubs open when logged
+	Nest   int       // > 0: logged inside a nested request issued by user code
 }
 
 // CBObs is what a dig callback reported.
@@ -65,6 +68,7 @@ type CBObs struct {
 	IsPanic   bool
 	PanicInj  [2]int
 	RuntimeNs int64
+	Panicked  bool // the callback itself panics right after reporting (callback-panic fault)
 }
 
 type TokInfo struct {
@@ -121,6 +125,8 @@ func injectedPanic(p interface{}) (fn, exec int, ok bool) {
 		return v.Fn, v.Exec, true
 	case *PanicWrap:
 		return v.Fn, v.Exec, true
+	case PanicCB:
+		return v.Fn, v.Exec, true
 	case string:
 		if _, err := fmt.Sscanf(v, "digsim-injected-panic fn=%d exec=%d", &fn, &exec); err == nil {
 			return fn, exec, true
@@ -138,19 +144,22 @@ type World struct {
 	advance func(time.Duration)
 	SimT    int64
 
-	Log     []Event
-	CurOp   int
-	Execs   []int // executions started per function
-	Open    []int // functions whose body is executing (stack)
-	Tokens  []TokInfo
-	errs    map[[2]int]*InjErr
-	faults  map[int][]Fault
-	fnVals  []interface{}
-	fnOK    []bool
-	catBind map[int]*Func
+	Log       []Event
+	CurOp     int
+	Execs     []int // executions started per function
+	Open      []int // functions whose body is executing (stack)
+	nest      int   // depth of nested requests issued by user code
+	Tokens    []TokInfo
+	errs      map[[2]int]*InjErr
+	faults    map[int][]Fault
+	fnVals    []interface{}
+	fnOK      []bool
+	catBind   map[int]*Func
+	lastPInfo *dig.ProvideInfo // Info struct filled by the latest accepted Provide (see Func.ReuseInfo)
 
-	FaultsFired [4]int
+	FaultsFired [5]int
 	HomeOf      map[int]int               // fn id -> index of the scope it was provided to (set by the runner on accepted Provide)
+	NestedProv  []NestedProv              // registrations issued by user code from inside an Invoke
 	Online      func(w *World, ev *Event) // optional hook run at fn-enter
 }
 
@@ -173,7 +182,7 @@ func NewWorld(h *History) *World {
 	if h.Cfg.DryRun {
 		opts = append(opts, dig.DryRun(true))
 	}
-	curValMask = h.Cfg.ValMask
+	curValMask, curAltMask = h.Cfg.ValMask, h.Cfg.AltMask
 	w.C = dig.New(opts...)
 	root := dig.VerifRootScope(w.C)
 	dig.VerifSeedRand(root, mix64(h.Cfg.ShuffleSeed, 0))
@@ -197,18 +206,31 @@ func (w *World) emit(ev Event) *Event {
 	ev.Op = w.CurOp
 	ev.SimT = w.SimT
 	ev.Depth = len(w.Open)
+	ev.Nest = w.nest
 	w.Log = append(w.Log, ev)
 	return &w.Log[len(w.Log)-1]
 }
 
 func (w *World) faultFor(fn, exec int) FaultKind {
 	for _, f := range w.faults[fn] {
-		if exec >= f.From && (f.To < 0 || exec < f.To) {
+		if f.Kind != FaultCBPanic && exec >= f.From && (f.To < 0 || exec < f.To) {
 			return f.Kind
 		}
 	}
 	return FaultNone
 }
+
+func (w *World) cbFaultFor(fn, exec int) bool {
+	for _, f := range w.faults[fn] {
+		if f.Kind == FaultCBPanic && exec >= f.From && (f.To < 0 || exec < f.To) {
+			return true
+		}
+	}
+	return false
+}
+
+// PanicCB is the value a callback panics with under a callback-panic fault.
+type PanicCB struct{ Fn, Exec int }
 
 func (w *World) injErr(fn, exec int) *InjErr {
 	k := [2]int{fn, exec}
@@ -239,6 +261,9 @@ func valType(t int) reflect.Type {
 	if isVal(t) {
 		return vTypes[t]
 	}
+	if isAlt(t) {
+		return altsim.KTypes[altIndex(t)]
+	}
 	return kTypes[t]
 }
 
@@ -266,18 +291,22 @@ func paramType(p Param, positional bool) reflect.Type {
 	case PSingle:
 		return valType(p.T)
 	case PGroup:
-		if p.NamedSlice && !IsIface(p.T) && !isVal(p.T) {
+		if p.NamedSlice && !IsIface(p.T) && !isVal(p.T) && !isAlt(p.T) {
 			return ksTypes[p.T]
 		}
 		return reflect.SliceOf(valType(p.T))
 	}
 	fields := []reflect.StructField{{Name: "In", Type: inType, Anonymous: true}}
 	for i, f := range p.Fields {
-		fields = append(fields, reflect.StructField{
+		sf := reflect.StructField{
 			Name: fmt.Sprintf("F%d", i),
 			Type: paramType(f, false),
 			Tag:  paramTag(f),
-		})
+		}
+		if f.Kind == PObj && f.Embed {
+			sf.Name, sf.Anonymous = fmt.Sprintf("E%d", i), true
+		}
+		fields = append(fields, sf)
 	}
 	return reflect.StructOf(fields)
 }
@@ -471,6 +500,8 @@ func (w *World) mint(fn, exec, leaf, elem int, t int, poison bool, inputs []int6
 		p = kNew[t-TIface](s)
 	case isVal(t):
 		p = vNew[t](s)
+	case isAlt(t):
+		p = altsim.KNew[altIndex(t)](s)
 	default:
 		p = kNew[t](s)
 	}
@@ -659,12 +690,51 @@ func (w *World) call(f *Func, ft reflect.Type, args []reflect.Value) []reflect.V
 			out[k] = reflect.Zero(errType)
 		}
 	}
-	if f.Reenter && f.Role != RoleInv && fault == FaultNone {
+	if f.Reenter && !(f.ReCB && f.Callback) && f.Role != RoleInv && fault == FaultNone {
 		w.reenter(f)
+	}
+	if f.ThenProvide > 0 && f.Role == RoleInv && fault == FaultNone {
+		w.thenProvide(f)
 	}
 	w.Open = w.Open[:len(w.Open)-1]
 	w.emit(Event{Kind: EvExit, Fn: f.ID, Exec: exec, Out: res, Minted: c.minted})
 	return out
+}
+
+// NestedProv records a Provide issued by an invoked function's body.
+type NestedProv struct {
+	Op, Fn, Scope int
+	Facts         ErrFacts
+}
+
+// thenProvide: the invoked function registers a constructor before returning.
+func (w *World) thenProvide(f *Func) {
+	idx := f.ThenProvide - 1
+	if idx < 0 || idx >= len(w.H.Funcs) || f.ThenScope < 0 || f.ThenScope >= len(w.Scopes) || w.H.Funcs[idx].Role != RoleCtor {
+		return
+	}
+	g := &w.H.Funcs[idx]
+	saved := append([]int(nil), w.Open...)
+	fv := w.FnValue(idx)
+	opts := w.provideOpts(g, nil)
+	err, facts := w.guard(func() error {
+		if f.ThenScope == 0 {
+			return w.C.Provide(fv, opts...)
+		}
+		return w.Scopes[f.ThenScope].Provide(fv, opts...)
+	})
+	w.Open = saved
+	if err == nil && !facts.Escaped {
+		if w.HomeOf == nil {
+			w.HomeOf = map[int]int{}
+		}
+		w.HomeOf[g.ID] = f.ThenScope
+		if g.Export {
+			w.HomeOf[g.ID] = 0
+		}
+	}
+	w.NestedProv = append(w.NestedProv, NestedProv{Op: w.CurOp, Fn: idx, Scope: f.ThenScope, Facts: facts})
+	w.emit(Event{Kind: EvNested, Fn: idx, Exec: 100 + int(verdictOf(facts))})
 }
 
 // reenter: re-entrant user code. The constructor's body asks the container (the
@@ -684,6 +754,19 @@ func (w *World) reenter(f *Func) {
 		return
 	}
 	k := lr[0].Keys[0]
+	if f.ReKey != nil {
+		// any key, from any scope (a nested demand through a different path)
+		if f.ReScope < 0 || f.ReScope >= len(w.Scopes) {
+			return
+		}
+		k, home = *f.ReKey, f.ReScope
+	}
+	if w.nest >= 3 {
+		return // user code that re-enters from inside re-entered code stops somewhere
+	}
+	saved := append([]int(nil), w.Open...)
+	w.nest++
+	defer func() { w.nest--; w.Open = saved }()
 	var p Param
 	switch {
 	case k.IsGroup():
@@ -701,10 +784,6 @@ func (w *World) reenter(f *Func) {
 	_ = err
 	nv := verdictOf(facts)
 	w.emit(Event{Kind: EvNested, Fn: f.ID, Exec: int(nv)})
-	// guard() clears the open stack when a panic escaped; restore ours
-	if facts.Escaped {
-		w.Open = append(w.Open, f.ID)
-	}
 }
 
 func (w *World) callback(fn int) dig.Callback {
@@ -721,7 +800,18 @@ func (w *World) callback(fn int) dig.Callback {
 				}
 			}
 		}
+		exec := w.Execs[fn] - 1
+		o.Panicked = w.cbFaultFor(fn, exec)
 		w.emit(Event{Kind: EvCallback, Fn: fn, CB: o})
+		if o.Panicked {
+			w.FaultsFired[FaultCBPanic]++
+			panic(PanicCB{fn, exec})
+		}
+		if f := &w.H.Funcs[fn]; f.Reenter && f.ReCB {
+			// re-entrant callback: asks the container while the function's
+			// Call is still in progress (whatever its outcome was)
+			w.reenter(f)
+		}
 	}
 }
 
@@ -737,6 +827,9 @@ func (w *World) Fingerprint() string {
 func (e *Event) Canon() string {
 	var b strings.Builder
 	fmt.Fprintf(&b, "%d %s op=%d fn=%d ex=%d t=%d d=%d", e.Seq, e.Kind, e.Op, e.Fn, e.Exec, e.SimT, e.Depth)
+	if e.Nest > 0 {
+		fmt.Fprintf(&b, " nest=%d", e.Nest)
+	}
 	switch e.Kind {
 	case EvEnter:
 		for _, a := range e.Args {
